@@ -70,6 +70,12 @@ type CaseSpec struct {
 	// Epoch of the objects (0: the default epoch 3, unless EpochZero).
 	Epoch     uint64 `json:"epoch"`
 	EpochZero bool   `json:"epoch_zero"`
+	// Straddle: the object's slot lies in epoch Epoch (its last slot if OtherEpoch > Epoch, else its
+	// first slot) while the other epoch-bearing field of the object (attestation target epoch; inner
+	// target epoch of an aggregate-and-proof) is OtherEpoch. The signing epoch is the one the consensus
+	// spec names for the type (dutygen.Parts), whichever side that is.
+	Straddle   bool   `json:"straddle"`
+	OtherEpoch uint64 `json:"other_epoch"`
 	// Seq > 0: the call belongs to sequence Seq: ONE aggregator with ONE verifier (sigagg.NewVerifier)
 	// lives through all calls of the sequence, in order, as in production.
 	Seq int `json:"seq"`
@@ -265,6 +271,12 @@ func (e *env) run(spec CaseSpec) Case {
 		epoch = 3
 	}
 	slot := epoch*e.spe + 5
+	if spec.Straddle {
+		slot = epoch * e.spe
+		if spec.OtherEpoch > epoch {
+			slot += e.spe - 1
+		}
+	}
 
 	// contents used by the case
 	contents := map[int]*content{}
@@ -273,7 +285,13 @@ func (e *env) run(spec CaseSpec) Case {
 			return ct
 		}
 		raw := g.New(e.t, slot+uint64(cl)*e.spe, e.spe) // other class: other epoch as well
+		if spec.Straddle && !dutygen.Straddle(raw, slot+uint64(cl)*e.spe, spec.OtherEpoch) {
+			e.t.Fatalf("%s has no slot/epoch pair to straddle", spec.Type)
+		}
 		dom, ep, root, err := g.Parts(raw, e.spe)
+		if cl == 0 {
+			epoch = uint64(ep) // the label carries the signing epoch the spec names for the object
+		}
 		if err != nil {
 			e.t.Fatal(err)
 		}
@@ -897,6 +915,41 @@ func (e *env) genCases(total int) []CaseSpec {
 		}
 	}
 	seq := 0
+	// objects straddling a fork activation: slot on one side, the other epoch-bearing field on the other
+	// side (attestations sign with the TARGET epoch, aggregate-and-proofs with the SLOT's epoch), both
+	// directions, every fork the mock activates after genesis: signed under the fork version of the
+	// epoch the spec names (must publish) and under the fork version of the other side (must fail)
+	for _, name := range e.names {
+		g := e.gens[name]
+		if !(g.IsAtt || strings.Contains(name, "aggregate_and_proof")) {
+			continue
+		}
+		seq++
+		for _, b := range []uint64{2048, 50688} {
+			for _, dir := range [][2]uint64{{b - 1, b}, {b, b - 1}} { // (slot epoch, other epoch)
+				signEpoch, wrongEpoch := dir[1], dir[0] // attestation: target epoch signs
+				if !g.IsAtt {
+					signEpoch, wrongEpoch = dir[0], dir[1] // aggregate-and-proof: the slot's epoch signs
+				}
+				_ = signEpoch
+				wv, err := dutygen.VersionAt(e.ctx, e.bmock, eth2p0.Epoch(wrongEpoch))
+				if err != nil {
+					e.t.Fatal(err)
+				}
+				for _, fv := range []string{"", hex.EncodeToString(wv[:])} {
+					ps := validParts(0, subset(r, 4, 3+r.Intn(2)))
+					for i := range ps {
+						ps[i].ForkVersion = fv
+					}
+					c := CaseSpec{Kind: "fork-straddle", Type: name, T: 3, N: 4, Epoch: dir[0], Straddle: true, OtherEpoch: dir[1], Seq: seq, Vals: []ValSpec{{V: 0, Parts: ps}}}
+					if fv != "" {
+						c.Corrupt = []string{"fork_version_of_the_other_side"}
+					}
+					add(c)
+				}
+			}
+		}
+	}
 	// epochs 0 and 1 and the edges of every fork of the mock's schedule: signed under the fork version
 	// the spec prescribes for the object's own epoch (must publish) and under other fork versions of the
 	// schedule, the genesis version first (must fail); one long-lived aggregator per type
